@@ -126,6 +126,7 @@ func H_C13_render_long() {
 	p2 := n - 4 + vxrt.Choice("second-place", 2)
 	k1, k2 := vxrt.Choice("first-kind", 3), vxrt.Choice("second-kind", 3)
 	longLine := vxrt.Bool("one-very-long-line")
+	bigChange := k1 == 0 && vxrt.Bool("the-first-change-is-between-40KB-lines")
 	var aLines, bLines []string
 	for i := 0; i < n; i++ {
 		l := "line " + vxItoa(i) + "\n"
@@ -145,8 +146,17 @@ func H_C13_render_long() {
 		}
 		switch kind {
 		case 0: // changed
+			ch := "changed " + vxItoa(i) + "\n"
+			if bigChange && i == p1 {
+				// both sides of the first change are 40 000-byte lines: the report is larger than 64 KiB
+				old, nw := make([]byte, 40000), make([]byte, 40000)
+				for k := range old {
+					old[k], nw[k] = 'o', 'n'
+				}
+				l, ch = "old "+string(old)+"\n", "new "+string(nw)+"\n"
+			}
 			aLines = append(aLines, l)
-			bLines = append(bLines, "changed "+vxItoa(i)+"\n")
+			bLines = append(bLines, ch)
 		case 1: // removed
 			aLines = append(aLines, l)
 		case 2: // added
